@@ -147,6 +147,10 @@ fn side_counts(accts: &[(Pubkey, Option<MarginfiAccount>, Option<MarginfiAccount
     (a, l)
 }
 
+fn bank_bytes<T: bytemuck::Pod>(x: &T) -> &[u8] {
+    bytemuck::bytes_of(x)
+}
+
 impl Mon {
     /// What an accepted configuration instruction was asked to do is what it did: an option that
     /// was sent is applied as sent, a flag that was not mentioned keeps its value, a role that was
@@ -212,8 +216,146 @@ impl Mon {
         }
     }
 
+    /// C18 on chain: whatever interest configuration an instruction leaves behind on a bank must be
+    /// a curve that is defined and non-decreasing from the zero-utilisation rate through the
+    /// configured points (strictly increasing utilisation) to the full-utilisation rate.
+    fn c18_chain(&mut self, info: &IxInfo) {
+        let writes = matches!(info.kind, Kind::AddBank | Kind::AddBankWithSeed | Kind::AddBankPermissionless | Kind::CloneBank | Kind::ConfigureBank | Kind::ConfigureBankInterestOnly | Kind::MigrateCurve | Kind::AddBankKamino | Kind::AddBankDrift | Kind::AddBankSolend);
+        if !writes {
+            return;
+        }
+        for (bk, pre, post) in &info.banks {
+            let post = match post {
+                Some(b) => b,
+                None => continue,
+            };
+            let c = &post.config.interest_rate_config;
+            if let Some(p) = pre {
+                if bank_bytes(&p.config.interest_rate_config) == bank_bytes(c) {
+                    continue;
+                }
+            }
+            if c.curve_type != 1 {
+                continue;
+            }
+            self.r.eval();
+            self.r.count(&format!("C18.accepted_interest_configs/{}", info.kind.name()));
+            let used: Vec<(u32, u32)> = c.points.iter().filter(|p| p.util != 0).map(|p| (p.util, p.rate)).collect();
+            self.r.distinct(&("c18-chain", info.kind.name(), used.len(), c.zero_util_rate == 0, c.hundred_util_rate == u32::MAX));
+            let mut prev = (0u32, c.zero_util_rate);
+            let mut bad: Option<String> = None;
+            for (i, (u, r)) in used.iter().enumerate() {
+                if (i > 0 && *u <= prev.0) || *r < prev.1 {
+                    bad = Some(format!("point {} (util {}, rate {}) after (util {}, rate {})", i, u, r, prev.0, prev.1));
+                    break;
+                }
+                prev = (*u, *r);
+            }
+            if bad.is_none() && c.hundred_util_rate < prev.1 {
+                bad = Some(format!("full-utilisation rate {} below the last rate {}", c.hundred_util_rate, prev.1));
+            }
+            // a used point after padding is skipped by the reference (and by the evaluator): a hole
+            let mut seen_pad = false;
+            for p in c.points.iter() {
+                if p.util == 0 {
+                    seen_pad = true;
+                } else if seen_pad {
+                    bad = Some("configured point after padding".into());
+                }
+            }
+            if let Some(why) = bad {
+                self.r.violate("C18", &format!("C18/{}/accepted-curve-not-usable-or-decreasing", info.kind.name()), format!("bank {}: {} (zero {}, hundred {}, points {:?})", bk, why, c.zero_util_rate, c.hundred_util_rate, used));
+            }
+        }
+    }
+
+    /// C15 on chain: the three pause handlers, judged on the global fee state before / after.
+    fn c15_chain(&mut self, v: &IxView, info: &IxInfo) {
+        if !matches!(info.kind, Kind::PanicPause | Kind::PanicUnpause | Kind::PanicUnpausePermissionless) {
+            return;
+        }
+        let fk = crate::ix::fee_state_key();
+        let (p, q) = match (v.pre(&fk).and_then(fee_state_of), v.post(&fk).and_then(fee_state_of)) {
+            (Some(a), Some(b)) => (a.panic_state, b.panic_state),
+            _ => return,
+        };
+        let t = info.now;
+        let until = |s: &PanicState| if s.pause_flags & 1 != 0 { s.pause_start_timestamp + 1800 } else { i64::MIN };
+        self.r.eval();
+        self.r.count(&format!("C15.chain_accepted/{}", info.kind.name()));
+        self.r.distinct(&("c15-chain", info.kind.name(), p.pause_flags & 1, p.daily_pause_count.min(4), p.consecutive_pause_count.min(3), (t - p.pause_start_timestamp).clamp(-3601, 3601) / 600, (t - p.last_daily_reset_timestamp).clamp(0, 90_000) / 21_600));
+        match info.kind {
+            Kind::PanicPause => {
+                // an expired pause counts as over when the new one is ordered
+                let old_until = if p.pause_flags & 1 != 0 && t - p.pause_start_timestamp >= 1800 { t } else { until(&p).max(t) };
+                let nu = until(&q);
+                let reset_changed = q.last_daily_reset_timestamp != p.last_daily_reset_timestamp;
+                self.c15_succ = if reset_changed { 1 } else { self.c15_succ.saturating_add(1) };
+                if q.pause_flags & 1 == 0 {
+                    self.r.violate("C15", "C15/chain/pause-accepted-but-flag-not-set", format!("at t={}", t));
+                }
+                if nu - old_until > 1800 {
+                    self.r.violate("C15", "C15/chain/pause-pushed-forward-by-more-than-30-minutes", format!("t={} start {} -> {}", t, p.pause_start_timestamp, q.pause_start_timestamp));
+                }
+                if nu - t > 3600 {
+                    self.r.violate("C15", "C15/chain/pause-scheduled-more-than-60-minutes-ahead", format!("t={} start {} -> {}", t, p.pause_start_timestamp, q.pause_start_timestamp));
+                }
+                if self.c15_succ > 3 {
+                    self.r.violate("C15", "C15/chain/more-than-three-pauses-between-daily-resets", format!("t={} daily count {} -> {} last reset {}", t, p.daily_pause_count, q.daily_pause_count, q.last_daily_reset_timestamp));
+                }
+                if reset_changed && p.last_daily_reset_timestamp != 0 && q.last_daily_reset_timestamp - p.last_daily_reset_timestamp < 86_400 {
+                    self.r.violate("C15", "C15/chain/daily-resets-less-than-24h-apart", format!("{} -> {}", p.last_daily_reset_timestamp, q.last_daily_reset_timestamp));
+                }
+                self.r.max("C15.chain_max_seconds_paused_ahead", (nu - t) as f64);
+            }
+            Kind::PanicUnpause | Kind::PanicUnpausePermissionless => {
+                if q.pause_flags & 1 != 0 {
+                    self.r.violate("C15", &format!("C15/chain/{}-accepted-but-flag-still-set", info.kind.name()), format!("t={}", t));
+                }
+                if info.kind == Kind::PanicUnpausePermissionless && p.pause_flags & 1 != 0 && t - p.pause_start_timestamp < 1800 {
+                    self.r.violate("C15", "C15/chain/permissionless-unpause-before-expiry", format!("t={} start {}", t, p.pause_start_timestamp));
+                }
+            }
+            _ => {}
+        }
+    }
+    /// C15 on chain, rejections: unpausing must not fail while a pause flag is set (the admin's at
+    /// any time, anyone's once the pause has run out).
+    pub fn c15_reject(&mut self, w: &World, ixs: &[solana_sdk::instruction::Instruction], failing: usize, code: u32) {
+        let ixn = match ixs.get(failing) {
+            Some(i) if i.program_id == MFI => i,
+            _ => return,
+        };
+        let kind = Kind::of(&ixn.data);
+        if !matches!(kind, Kind::PanicUnpause | Kind::PanicUnpausePermissionless) {
+            return;
+        }
+        let fs = match w.shadow.get(&crate::ix::fee_state_key()).and_then(|a| fee_state_of(&a.data)) {
+            Some(f) => f,
+            None => return,
+        };
+        let p = fs.panic_state;
+        let t = w.chain.now();
+        self.r.eval();
+        self.r.count(&format!("C15.chain_rejected/{}/{}", kind.name(), code));
+        let flag = p.pause_flags & 1 != 0;
+        let signed_by_admin = ixn.accounts.iter().any(|m| m.is_signer && m.pubkey == fs.global_fee_admin);
+        if kind == Kind::PanicUnpause && flag && signed_by_admin {
+            self.r.violate("C15", "C15/chain/admin-unpause-failed-while-pause-flag-set", format!("t={} start {} error {}", t, p.pause_start_timestamp, code));
+        }
+        if kind == Kind::PanicUnpausePermissionless && flag && t - p.pause_start_timestamp >= 1800 {
+            self.r.violate("C15", "C15/chain/permissionless-unpause-failed-after-expiry", format!("t={} start {} error {}", t, p.pause_start_timestamp, code));
+        }
+    }
+
     pub fn admin_on_ix(&mut self, w: &World, v: &IxView, info: &IxInfo) {
         self.config_fidelity(v, info);
+        if self.r.is("C15") {
+            self.c15_chain(v, info);
+        }
+        if self.r.is("C18") {
+            self.c18_chain(info);
+        }
         if self.r.is("C12") {
             self.c12(w, v, info);
         }
@@ -839,6 +981,16 @@ impl Mon {
                                     continue;
                                 }
                             };
+                            // the position's emissions clock is stamped whenever the position is
+                            // settled or changed, whichever side it is on (time spent on a side
+                            // that earns nothing must not be paid for later)
+                            let touched = matches!(info.kind, Kind::SettleEmissions | Kind::WithdrawEmissions | Kind::WithdrawEmissionsPermissionless) || w_(&yq.asset_shares) != w_(&x.asset_shares) || w_(&yq.liability_shares) != w_(&x.liability_shares);
+                            if touched && info.kind != Kind::TransferAccount && info.kind != Kind::TransferAccountPda && info.kind != Kind::HandleBankruptcy {
+                                self.r.count("C19.emission_clock_stamps_checked");
+                                if yq.last_update != info.now as u64 {
+                                    self.r.violate("C19", &format!("C19/{}/emissions-clock-not-stamped", info.kind.name()), format!("bank {}: position last_update {} -> {} at time {}", bk, x.last_update, yq.last_update, info.now));
+                                }
+                            }
                             let d = w_(&yq.emissions_outstanding) - w_(&x.emissions_outstanding);
                             credited += &d;
                             // proportional bound: amount * dt * rate / (year * 10^dec)
